@@ -183,6 +183,9 @@ func runC10(c *Ctx) {
 	// template has TypMap = tokMap.TypeMap itself (not a re-spelled copy) and IdMap = typeMap(tokMap)
 	if gt := p.Func("internal/token/gen/golang", "GenToken"); gt != nil {
 		data := executeData(p, gt, 0)
+		if in, ok := data.(ssa.Instruction); ok && in.Parent() != nil {
+			gt = in.Parent() // the helper that executes the template, if GenToken leaves it to one
+		}
 		if mi, ok := data.(*ssa.MakeInterface); ok {
 			data = mi.X
 		}
